@@ -9,15 +9,22 @@
     FragmentsOnCompositeTypesChecker→ type conditions are known composite types                        (`selOk` inline, `fragsOk`)
     KnownFragmentNamesChecker       → spread fragments exist                                           (`selOk` spread)
     UniqueFragmentNamesChecker      → `fragsUnique`
+    NoFragmentCyclesChecker         → `fragsAcyclic` (the rank computation is complete: `Lemmas/C05Acyclic.lean`)
+  The translation `eDoc s env` gives every field node its MODEL-COMPUTED argument table (`Exec.argsTable`: C07's
+  `coerceArgumentValues` on the node's argument literals under the environment of coerced variables): the chain speaks
+  about documents WITH arguments; a rejected argument is a field error of the executor model (`bridge_rejected_argument`).
   NO LONGER a premise: the `@skip/@include` conditions. A condition that is not a Boolean at run time (`if: [true]`,
   which ValuesOfCorrectType lets through — V8; a nullable variable with a default bound to `null`) is a modelled outcome
   since 4e87d3d: a field error at the enclosing field, `data = null` for the root selection set.
-  Still on the run-time tie (`RuntimeTie`): `fragsAcyclic` (NoFragmentCyclesChecker has no `rule_*_iff` yet); operations have a root object type; no `__schema` /
-  `__type` selections (introspection is C15's); `MergeSafe` (OverlappingFieldsCanBeMerged).
+  Still on the run-time tie (`RuntimeTie`): operations have a root object type; no `__schema` / `__type` selections
+  (introspection is C15's). Separate hypothesis: `MergeSafe` (OverlappingFieldsCanBeMerged).
 -/
 import PyGqlModel.Spec.ValidDoc
 import PyGqlModel.Props.C06_all
 import PyGqlModel.Props.C05_merge
+import PyGqlModel.ExecArgs
+import PyGqlModel.Props.C04_acyclic
+import PyGqlModel.Lemmas.C05Acyclic
 
 set_option linter.unusedSimpArgs false
 set_option linter.unusedVariables false
@@ -42,23 +49,52 @@ def condOf (args : List Validate.Arg) : Exec.Cond :=
 def eDir (d : Validate.Dir) : Exec.Dir := { name := d.name, cond := condOf d.args }
 
 mutual
-def eSel : Validate.Sel → Exec.Sel
-  | .field alias name _ dirs hs ssid sub => .field (alias.getD name) name ssid (dirs.map eDir) [] hs (eSels sub)
-  | .spread name dirs => .spread name (dirs.map eDir)
-  | .inline on dirs _ sub => .inline on (dirs.map eDir) (eSels sub)
-def eSels : List Validate.Sel → List Exec.Sel
+/-- literal of the validator's AST → literal of C07's coercion model -/
+def litOf : Validate.Value → Coerce.Lit
+  | .var n => .var n
+  | .int t => .int (t.toInt?.getD 0)
+  | .float t => .float t
+  | .str t => .str t
+  | .bool b => .bool b
+  | .null => .null
+  | .enum n => .enum n
+  | .list vs => .list (litsOf vs)
+  | .obj fs => .obj (fieldsOf fs)
+def litsOf : List Validate.Value → List Coerce.Lit
   | [] => []
-  | x :: xs => eSel x :: eSels xs
+  | v :: vs => litOf v :: litsOf vs
+def fieldsOf : List Validate.ObjField → List (String × Coerce.Lit)
+  | [] => []
+  | .mk n v :: fs => (n, litOf v) :: fieldsOf fs
 end
 
-def eOp : Validate.Def → Option Exec.Op
-  | .op kind name _ _ _ sels => some { kind := kind, name := name, sels := eSels sels }
+/-- the argument nodes of a field, as `coerce_argument_values` reads them -/
+def eArgs (args : List Validate.Arg) : List (String × Coerce.Lit) := args.map fun a => (a.name, litOf a.value)
+
+mutual
+/-- a field node carries the MODEL-COMPUTED table "object type defining the field ↦ coerced keyword arguments"
+    (`Exec.argsTable`: C07's `coerceArgumentValues` under the environment `env`; `none` = `CoercionError`, a field error);
+    the sub-selection of a node without selection set is empty (`hasSub = false`: the parser never produces one) -/
+def eSel (s : SchemaD) (env : Exec.ArgEnv) : Validate.Sel → Exec.Sel
+  | .field alias name args dirs hs ssid sub =>
+    .field (alias.getD name) name ssid (dirs.map eDir) (Exec.argsTable s env name (eArgs args)) hs (if hs then eSels s env sub else [])
+  | .spread name dirs => .spread name (dirs.map eDir)
+  | .inline on dirs _ sub => .inline on (dirs.map eDir) (eSels s env sub)
+def eSels (s : SchemaD) (env : Exec.ArgEnv) : List Validate.Sel → List Exec.Sel
+  | [] => []
+  | x :: xs => eSel s env x :: eSels s env xs
+end
+
+def eOp (s : SchemaD) (env : Exec.ArgEnv) : Validate.Def → Option Exec.Op
+  | .op kind name _ _ _ sels => some { kind := kind, name := name, sels := eSels s env sels }
   | _ => none
-def eFrag : Validate.Def → Option Exec.Frag
-  | .frag name on _ _ sels => some { name := name, on := on, sels := eSels sels }
+def eFrag (s : SchemaD) (env : Exec.ArgEnv) : Validate.Def → Option Exec.Frag
+  | .frag name on _ _ sels => some { name := name, on := on, sels := eSels s env sels }
   | _ => none
 
-def eDoc (d : Validate.Doc) : Exec.Doc := { ops := d.defs.filterMap eOp, frags := d.defs.filterMap eFrag }
+/-- the executor's document: fields WITH their argument tables -/
+def eDoc (s : SchemaD) (env : Exec.ArgEnv) (d : Validate.Doc) : Exec.Doc :=
+  { ops := d.defs.filterMap (eOp s env), frags := d.defs.filterMap (eFrag s env) }
 
 /-! ### the two schema readings agree where the validator's is defined -/
 
@@ -120,10 +156,10 @@ private theorem output_of_composite (s : SchemaD) (t : Ty) (h : Validate.isCompo
 
 mutual
 /-- **the typed core of the bridge**: selections whose (node, context) pairs satisfy the local conditions are `selOk` -/
-private theorem eSel_ok (s : SchemaD) (hs : SchemaWf s) (d : Validate.Doc) (docE : Exec.Doc) (vars : Exec.Vars)
+private theorem eSel_ok (s : SchemaD) (env : Exec.ArgEnv) (hs : SchemaWf s) (d : Validate.Doc) (docE : Exec.Doc) (vars : Exec.Vars)
     (hfr : ∀ name ∈ fragNames d, (docE.fragment? name).isSome = true) :
     ∀ (x : Validate.Sel) (v : View) (T : String), v.parent = some T → compositeBase s v.type = some T →
-      (∀ p ∈ tnSel s v x, TLocal s p) → (∀ n ∈ selNodes x, NLocal s d n) → Spec.selOk s docE vars T (eSel x) = true
+      (∀ p ∈ tnSel s v x, TLocal s p) → (∀ n ∈ selNodes x, NLocal s d n) → Spec.selOk s docE vars T (eSel s env x) = true
   | .field alias name args dirs hsub ssid sub, v, T, hp, hc, hT, hN => by
     have hdirs : Spec.dirsOk vars (dirs.map eDir) = true := rfl
     -- the field node with its context
@@ -178,11 +214,11 @@ private theorem eSel_ok (s : SchemaD) (hs : SchemaWf s) (d : Validate.Doc) (docE
           rw [kindOf_compat s _ k hk]
           have leafCase : Validate.isLeaf s fd.type.base = true → (!hsub) = true := fun h => by simp [hl h]
           have compCase : Validate.isComposite s fd.type.base = true →
-              (hsub && Spec.selsOk s docE vars fd.type.base (eSels sub)) = true := by
+              (hsub && Spec.selsOk s docE vars fd.type.base (if hsub then eSels s env sub else [])) = true := by
             intro hcb
             have hh := hcmp hcb
             subst hh
-            simp only [Bool.true_and]
+            simp only [Bool.true_and, if_true]
             -- the selection set of the field
             let v1 := View.enter s (Node.field name args dirs true) v
             have hv1t : v1.type = some fd.type := by
@@ -191,7 +227,7 @@ private theorem eSel_ok (s : SchemaD) (hs : SchemaWf s) (d : Validate.Doc) (docE
             have hv2p : v2.parent = some fd.type.base := by simp [v2, View.enter, hv1t, compositeBase_some s fd.type hcb]
             have hv2c : compositeBase s v2.type = some fd.type.base := by
               simp [v2, View.enter, hv1t, compositeBase_some s fd.type hcb]
-            exact eSels_ok s hs d docE vars hfr sub v2 fd.type.base hv2p hv2c
+            exact eSels_ok s env hs d docE vars hfr sub v2 fd.type.base hv2p hv2c
               (fun p hp' => hT p (by simp [tnSel, v1, v2]; right; right; right; exact Or.inr hp'))
               (fun n hn => hN n (by simp [selNodes]; right; right; right; exact Or.inr hn))
           cases k with
@@ -225,7 +261,7 @@ private theorem eSel_ok (s : SchemaD) (hs : SchemaWf s) (d : Validate.Doc) (docE
       let v2 := View.enter s (Node.selectionSet ssid sub) v1
       have hv2p : v2.parent = some T := by simp [v2, View.enter, hv1t, compositeBase_some s t htc, htT]
       have hv2c : compositeBase s v2.type = some T := by simp [v2, View.enter, hv1t, compositeBase_some s t htc, htT]
-      exact eSels_ok s hs d docE vars hfr sub v2 T hv2p hv2c
+      exact eSels_ok s env hs d docE vars hfr sub v2 T hv2p hv2c
         (fun p hp' => hT p (by simp [tnSel, v1, v2]; right; right; exact Or.inr hp'))
         (fun n hn => hN n (by simp [selNodes]; right; right; exact Or.inr hn))
     | some c =>
@@ -245,18 +281,18 @@ private theorem eSel_ok (s : SchemaD) (hs : SchemaWf s) (d : Validate.Doc) (docE
         simpa [Ty.base] using compositeBase_some s (Ty.named c) (by simpa [Ty.base] using hcc)
       have hv2p : v2.parent = some c := by simp [v2, View.enter, hv1t, hcb]
       have hv2c : compositeBase s v2.type = some c := by simp [v2, View.enter, hv1t, hcb]
-      exact eSels_ok s hs d docE vars hfr sub v2 c hv2p hv2c
+      exact eSels_ok s env hs d docE vars hfr sub v2 c hv2p hv2c
         (fun p hp' => hT p (by simp [tnSel, v1, v2]; right; right; exact Or.inr hp'))
         (fun n hn => hN n (by simp [selNodes]; right; right; exact Or.inr hn))
-private theorem eSels_ok (s : SchemaD) (hs : SchemaWf s) (d : Validate.Doc) (docE : Exec.Doc) (vars : Exec.Vars)
+private theorem eSels_ok (s : SchemaD) (env : Exec.ArgEnv) (hs : SchemaWf s) (d : Validate.Doc) (docE : Exec.Doc) (vars : Exec.Vars)
     (hfr : ∀ name ∈ fragNames d, (docE.fragment? name).isSome = true) :
     ∀ (xs : List Validate.Sel) (v : View) (T : String), v.parent = some T → compositeBase s v.type = some T →
-      (∀ p ∈ tnSels s v xs, TLocal s p) → (∀ n ∈ selsNodes xs, NLocal s d n) → Spec.selsOk s docE vars T (eSels xs) = true
+      (∀ p ∈ tnSels s v xs, TLocal s p) → (∀ n ∈ selsNodes xs, NLocal s d n) → Spec.selsOk s docE vars T (eSels s env xs) = true
   | [], _, _, _, _, _, _ => by simp [eSels, Spec.selsOk]
   | x :: xs, v, T, hp, hc, hT, hN => by
     simp only [eSels, Spec.selsOk, Bool.and_eq_true]
-    exact ⟨eSel_ok s hs d docE vars hfr x v T hp hc (fun p h => hT p (by simp [tnSels, h])) (fun n h => hN n (by simp [selsNodes, h])),
-           eSels_ok s hs d docE vars hfr xs v T hp hc (fun p h => hT p (by simp [tnSels, h])) (fun n h => hN n (by simp [selsNodes, h]))⟩
+    exact ⟨eSel_ok s env hs d docE vars hfr x v T hp hc (fun p h => hT p (by simp [tnSels, h])) (fun n h => hN n (by simp [selsNodes, h])),
+           eSels_ok s env hs d docE vars hfr xs v T hp hc (fun p h => hT p (by simp [tnSels, h])) (fun n h => hN n (by simp [selsNodes, h]))⟩
 end
 
 
@@ -269,14 +305,12 @@ structure RuntimeTie (s : SchemaD) (d : Validate.Doc) (vars : Exec.Vars) : Prop 
   roots : ∀ x ∈ d.defs, ∀ k n vs ds i ss, x = Validate.Def.op k n vs ds i ss → ∃ r, Validate.rootType s k = some r
   /-- no `__schema` / `__type` selections (introspection belongs to C15) -/
   noIntrospection : ∀ p ∈ typedNodes s d, ∀ name args dirs hs, p.1 = Node.field name args dirs hs → name ≠ "__schema" ∧ name ≠ "__type"
-  /-- NoFragmentCyclesChecker (no `rule_*_iff` in C06 yet) -/
-  acyclic : Spec.fragsAcyclic (eDoc d) = true
 
 def RuntimeTieClauses : List String :=
-  ["operations have a root object type", "no __schema/__type selections", "NoFragmentCycles (fragsAcyclic)",
+  ["operations have a root object type", "no __schema/__type selections",
    "MergeSafe (OverlappingFieldsCanBeMerged, declarative; `mergeSafeB` evaluated by the driver on every accepted document) — separate hypothesis of validated_no_internal_error"]
 
-private theorem frags_names (d : Validate.Doc) : (eDoc d).frags.map (·.name) = fragNames d := by
+private theorem frags_names (s : SchemaD) (env : Exec.ArgEnv) (d : Validate.Doc) : (eDoc s env d).frags.map (·.name) = fragNames d := by
   unfold eDoc fragNames
   simp only
   induction d.defs with
@@ -284,8 +318,9 @@ private theorem frags_names (d : Validate.Doc) : (eDoc d).frags.map (·.name) = 
   | cons x xs ih =>
     cases x <;> simp [List.filterMap_cons, eFrag, ih]
 
-private theorem fragment_isSome (d : Validate.Doc) (name : String) (h : name ∈ fragNames d) : ((eDoc d).fragment? name).isSome = true := by
-  rw [← frags_names] at h
+private theorem fragment_isSome (s : SchemaD) (env : Exec.ArgEnv) (d : Validate.Doc) (name : String) (h : name ∈ fragNames d) :
+    ((eDoc s env d).fragment? name).isSome = true := by
+  rw [← frags_names s env] at h
   obtain ⟨fr, hfr, hn⟩ := List.mem_map.mp h
   unfold Exec.Doc.fragment?
   rw [List.find?_isSome]
@@ -314,29 +349,111 @@ private theorem composite_of_object (s : SchemaD) (r : String) (h : Validate.isO
   | none => simp [hk] at h
   | some k => simp [hk] at h; subst h; rfl
 
+/-! ### `fragsAcyclic` from the rule NoFragmentCycles (C06: `rule_no_fragment_cycles_iff`) -/
+
+mutual
+private theorem eSel_spreads (s : SchemaD) (env : Exec.ArgEnv) : ∀ x : Validate.Sel, Spec.selSpreads (eSel s env x) = C06.selSpreads x
+  | .field al name args dirs true id sub => by simp [eSel, Spec.selSpreads, C06.selSpreads, eSels_spreads s env sub]
+  | .field al name args dirs false id sub => by simp [eSel, Spec.selSpreads, Spec.selsSpreads, C06.selSpreads]
+  | .spread n dirs => by simp [eSel, Spec.selSpreads, C06.selSpreads]
+  | .inline on dirs id sub => by simp [eSel, Spec.selSpreads, C06.selSpreads, eSels_spreads s env sub]
+private theorem eSels_spreads (s : SchemaD) (env : Exec.ArgEnv) : ∀ xs : List Validate.Sel,
+    Spec.selsSpreads (eSels s env xs) = C06.selSpreads.selsSpreads xs
+  | [] => by simp [eSels, Spec.selsSpreads, C06.selSpreads.selsSpreads]
+  | x :: xs => by simp [eSels, Spec.selsSpreads, C06.selSpreads.selsSpreads, eSel_spreads s env x, eSels_spreads s env xs]
+end
+
+/-- an edge of the executor-side spread graph is a fragment definition of the document and one of its direct spreads -/
+private theorem edge_inv (s : SchemaD) (env : Exec.ArgEnv) (d : Validate.Doc) (f g : String) (h : Spec.Edge (eDoc s env d) f g) :
+    ∃ sels, (f, sels) ∈ C06.fragsOf d.defs ∧ g ∈ Validate.Spec.directSpreads sels := by
+  obtain ⟨fr, hfr, hn, hg⟩ := h
+  unfold eDoc at hfr
+  simp only [List.mem_filterMap] at hfr
+  obtain ⟨x, hx, hxf⟩ := hfr
+  cases x with
+  | frag name on ds ssid sels =>
+    simp only [eFrag, Option.some.injEq] at hxf
+    subst hxf
+    simp only at hn hg
+    subst hn
+    refine ⟨sels, ?_, ?_⟩
+    · unfold C06.fragsOf
+      simp only [List.mem_filterMap]
+      exact ⟨_, hx, rfl⟩
+    · rw [C06.directSpreads_eq, ← eSels_spreads s env]; exact hg
+  | op => simp [eFrag] at hxf
+  | ts => simp [eFrag] at hxf
+
+private theorem fragsAcyclic_of_rule (s : SchemaD) (env : Exec.ArgEnv) (d : Validate.Doc)
+    (g3 : Validate.Spec.knownFragmentNames d) (g5 : (fragNames d).Nodup) (g6 : Validate.Spec.noFragmentCycles d) :
+    Spec.fragsAcyclic (eDoc s env d) = true := by
+  have hnd : ((C06.fragsOf d.defs).map (·.1)).Nodup := by rw [← C06.fragNames_eq_fragsOf]; exact g5
+  have hstep : ∀ f g, Spec.Edge (eDoc s env d) f g → Validate.Spec.Reach d f g ∧ f ∈ fragNames d := by
+    intro f g h
+    obtain ⟨sels, hm, hg⟩ := edge_inv s env d f g h
+    have hfs : Validate.Spec.fragSels d f = sels := C06.fragSels_of_mem d.defs f sels hnd hm
+    refine ⟨.step (by rw [hfs]; exact hg), ?_⟩
+    rw [C06.fragNames_eq_fragsOf]
+    exact List.mem_map.mpr ⟨(f, sels), hm, rfl⟩
+  have hreach : ∀ a b, Spec.Reaches (eDoc s env d) a b → Validate.Spec.Reach d a b ∧ a ∈ fragNames d := by
+    intro a b h
+    induction h with
+    | step he => exact hstep _ _ he
+    | trans _ _ ih1 ih2 => exact ⟨.trans ih1.1 ih2.1, ih1.2⟩
+  apply Spec.fragsAcyclic_of_noCycles
+  · intro f g h
+    obtain ⟨sels, hm, hg⟩ := edge_inv s env d f g h
+    unfold Validate.Spec.directSpreads at hg
+    simp only [List.mem_filterMap] at hg
+    obtain ⟨n, hn, hsome⟩ := hg
+    have hmem : n ∈ nodes d := by
+      unfold C06.fragsOf at hm
+      simp only [List.mem_filterMap] at hm
+      obtain ⟨x, hx, hxe⟩ := hm
+      cases x with
+      | frag name on ds ssid sels' =>
+        simp at hxe
+        obtain ⟨rfl, rfl⟩ := hxe
+        unfold nodes
+        simp only [List.mem_cons, List.mem_flatMap]
+        exact Or.inr ⟨_, hx, by simp [defNodes]; right; right; exact Or.inr hn⟩
+      | op => simp at hxe
+      | ts => simp at hxe
+    unfold Spec.Defined
+    rw [frags_names s env]
+    cases n with
+    | spread name dirs => simp at hsome; subst hsome; exact g3 _ hmem name dirs rfl
+    | _ => simp at hsome
+  · intro f h
+    obtain ⟨hr, hf⟩ := hreach f f h
+    exact g6 f hf hr
+
 /-- **rules_accept_validDoc** — the bridge. If the MODEL of the validator (Validate/*.lean, proved equivalent to the
     specification rule by rule in Props/C06*.lean) reports nothing for FieldsOnCorrectType, ScalarLeafs,
     KnownFragmentNames, FragmentsOnCompositeTypes and UniqueFragmentNames, then — with the `RuntimeTie` clauses — the
     executor-side translation of the document is `ValidDoc`; hence `validated_no_internal_error`, `validDoc_responds`
     and `exec_refines_spec` apply to it. -/
-theorem rules_accept_validDoc (s : SchemaD) (hs : SchemaWf s) (fx : Validate.Fixes) (d : Validate.Doc) (vars : Exec.Vars)
+theorem rules_accept_validDoc (s : SchemaD) (hs : SchemaWf s) (fx : Validate.Fixes) (hv11 : fx.v11 = true) (env : Exec.ArgEnv)
+    (d : Validate.Doc) (vars : Exec.Vars)
     (h1 : C06.Silent s fx .fieldsOnCorrectType d) (h2 : C06.Silent s fx .scalarLeafs d)
     (h3 : C06.Silent s fx .knownFragmentNames d) (h4 : C06.Silent s fx .fragmentsOnCompositeTypes d)
-    (h5 : C06.Silent s fx .uniqueFragmentNames d) (rt : RuntimeTie s d vars) :
-    Spec.ValidDoc s (eDoc d) vars := by
+    (h5 : C06.Silent s fx .uniqueFragmentNames d) (h6 : C06.Silent s fx .noFragmentCycles d)
+    (hne : ∀ f ∈ fragNames d, f ≠ "") (rt : RuntimeTie s d vars) :
+    Spec.ValidDoc s (eDoc s env d) vars := by
   have g1 := (C06.rule_fields_on_correct_type_iff s fx d).mp h1
   have g2 := (C06.rule_scalar_leafs_iff s fx d).mp h2
   have g3 := (C06.rule_known_fragment_names_iff s fx d).mp h3
   have g4 := (C06.rule_fragments_on_composite_types_iff s fx d).mp h4
   have g5 := (C06.rule_unique_fragment_names_iff s fx d).mp h5
+  have g6 := (C06.rule_no_fragment_cycles_iff s fx hv11 d g5 hne).mp h6
   have hT : ∀ p ∈ typedNodes s d, TLocal s p := by
     intro p hp name args dirs hsub e
     exact ⟨g1 p hp name args dirs hsub e, g2 p hp name args dirs hsub e, rt.noIntrospection p hp name args dirs hsub e⟩
   have hN : ∀ n ∈ nodes d, NLocal s d n := fun n hn => ⟨fun on dirs e => g4.1 n hn on dirs e, fun name dirs e => g3 n hn name dirs e⟩
-  have hfr := fragment_isSome d
+  have hfr := fragment_isSome s env d
   unfold Spec.ValidDoc Spec.validDocB
   simp only [Bool.and_eq_true]
-  refine ⟨⟨⟨?_, ?_⟩, rt.acyclic⟩, ?_⟩
+  refine ⟨⟨⟨?_, ?_⟩, fragsAcyclic_of_rule s env d g3 g5 g6⟩, ?_⟩
   · -- operations
     unfold Spec.opsOk
     rw [List.all_eq_true]
@@ -359,7 +476,7 @@ theorem rules_accept_validDoc (s : SchemaD) (hs : SchemaWf s) (fx : Validate.Fix
         simpa [Ty.base] using compositeBase_some s (Ty.named r) (by simpa [Ty.base] using hcomp)
       have hv2p : v2.parent = some r := by simp [v2, View.enter, hv1t, hcb]
       have hv2c : compositeBase s v2.type = some r := by simp [v2, View.enter, hv1t, hcb]
-      refine eSels_ok s hs d (eDoc d) vars hfr sels v2 r hv2p hv2c ?_ ?_
+      refine eSels_ok s env hs d (eDoc s env d) vars hfr sels v2 r hv2p hv2c ?_ ?_
       · intro p hp
         apply hT p
         unfold typedNodes
@@ -404,7 +521,7 @@ theorem rules_accept_validDoc (s : SchemaD) (hs : SchemaWf s) (fx : Validate.Fix
         simpa [Ty.base] using compositeBase_some s (Ty.named on) (by simpa [Ty.base] using hcc)
       have hv2p : v2.parent = some on := by simp [v2, View.enter, hv1t, hcb]
       have hv2c : compositeBase s v2.type = some on := by simp [v2, View.enter, hv1t, hcb]
-      refine eSels_ok s hs d (eDoc d) vars hfr sels v2 on hv2p hv2c ?_ ?_
+      refine eSels_ok s env hs d (eDoc s env d) vars hfr sels v2 on hv2p hv2c ?_ ?_
       · intro p hp
         apply hT p
         unfold typedNodes
@@ -420,32 +537,74 @@ theorem rules_accept_validDoc (s : SchemaD) (hs : SchemaWf s) (fx : Validate.Fix
   · -- unique fragment names
     unfold Spec.fragsUnique
     simp only [decide_eq_true_eq]
-    rw [frags_names]
+    rw [frags_names s env]
     exact g5
 
 
-/-- **rules_accept_cannot_go_wrong**: the soundness chain from the validator MODEL to the executor model — silent rules
-    (+ the `RuntimeTie` clauses and `MergeSafe`, the declarative form of OverlappingFieldsCanBeMerged whose rule
-    equivalence C06 is proving), a schema whose objects implement their interfaces covariantly, a typed world ⇒ no
-    request on the document ends in an internal exception, for every operation name and fuel. -/
-theorem rules_accept_cannot_go_wrong (s : SchemaD) (hs : SchemaWf s) (hso : SchemaOk s) (fx : Validate.Fixes) (d : Validate.Doc)
-    (vars : Exec.Vars) (h1 : C06.Silent s fx .fieldsOnCorrectType d) (h2 : C06.Silent s fx .scalarLeafs d)
+/-- **rules_accept_cannot_go_wrong**: the soundness chain from the validator MODEL to the executor model, for documents
+    WITH arguments — silent rules (FieldsOnCorrectType, ScalarLeafs, KnownFragmentNames, FragmentsOnCompositeTypes,
+    UniqueFragmentNames, NoFragmentCycles; + the two remaining `RuntimeTie` clauses and `MergeSafe`, the declarative form
+    of OverlappingFieldsCanBeMerged), a schema whose objects implement their interfaces covariantly, a typed world ⇒
+    no request on the document ends in an internal exception, for every environment of coerced variables (the argument
+    tables are computed by C07's `coerceArgumentValues`: a rejected argument is a field error, `bridge_rejected_argument`),
+    every operation name and fuel. -/
+theorem rules_accept_cannot_go_wrong (s : SchemaD) (hs : SchemaWf s) (hso : SchemaOk s) (fx : Validate.Fixes) (hv11 : fx.v11 = true)
+    (env : Exec.ArgEnv) (d : Validate.Doc) (vars : Exec.Vars)
+    (h1 : C06.Silent s fx .fieldsOnCorrectType d) (h2 : C06.Silent s fx .scalarLeafs d)
     (h3 : C06.Silent s fx .knownFragmentNames d) (h4 : C06.Silent s fx .fragmentsOnCompositeTypes d)
-    (h5 : C06.Silent s fx .uniqueFragmentNames d) (rt : RuntimeTie s d vars) (hm : MergeSafe s (eDoc d))
+    (h5 : C06.Silent s fx .uniqueFragmentNames d) (h6 : C06.Silent s fx .noFragmentCycles d)
+    (hne : ∀ f ∈ fragNames d, f ≠ "") (rt : RuntimeTie s d vars) (hm : MergeSafe s (eDoc s env d))
     (w : Exec.World) (hw : WorldTyped s w) :
-    ∀ (op : Option String) (fuel cf : Nat) (cls : String), Exec.execute s (eDoc d) vars w op fuel cf ≠ .failed (.internal cls) :=
-  validated_no_internal_error s hso (eDoc d) vars (rules_accept_validDoc s hs fx d vars h1 h2 h3 h4 h5 rt) hm w hw
+    ∀ (op : Option String) (fuel cf : Nat) (cls : String), Exec.execute s (eDoc s env d) vars w op fuel cf ≠ .failed (.internal cls) :=
+  validated_no_internal_error s hso (eDoc s env d) vars (rules_accept_validDoc s hs fx hv11 env d vars h1 h2 h3 h4 h5 h6 hne rt) hm w hw
 
-/-! non-vacuity: a document of the validator's AST with a fragment, an inline fragment and a directive, translated -/
+/-- … and every such document RESPONDS and is refined by the specification's algorithm: `ValidDoc` now comes entirely
+    from the rules, so the C04 theorems apply to what the validator model accepts -/
+theorem rules_accept_responds (s : SchemaD) (hs : SchemaWf s) (fx : Validate.Fixes) (hv11 : fx.v11 = true)
+    (env : Exec.ArgEnv) (d : Validate.Doc) (vars : Exec.Vars)
+    (h1 : C06.Silent s fx .fieldsOnCorrectType d) (h2 : C06.Silent s fx .scalarLeafs d)
+    (h3 : C06.Silent s fx .knownFragmentNames d) (h4 : C06.Silent s fx .fragmentsOnCompositeTypes d)
+    (h5 : C06.Silent s fx .uniqueFragmentNames d) (h6 : C06.Silent s fx .noFragmentCycles d)
+    (hne : ∀ f ∈ fragNames d, f ≠ "") (rt : RuntimeTie s d vars) (w : Exec.World) (op : Option String) :
+    ∃ r, C04.RespondsWith s (eDoc s env d) vars w op r :=
+  C04.validDoc_responds s (eDoc s env d) vars w (rules_accept_validDoc s hs fx hv11 env d vars h1 h2 h3 h4 h5 h6 hne rt) op
+
+/-- the table of a translated field node is C07's coercion of ITS argument nodes, one entry per object type defining the
+    field (`C04.argsTable_mem`, `C04.argsEntry_some_iff` / `argsEntry_none_iff` read the entries) -/
+theorem bridge_field_args (s : SchemaD) (env : Exec.ArgEnv) (alias : Option String) (name : String) (args : List Validate.Arg)
+    (dirs : List Validate.Dir) (hs : Bool) (ssid : Nat) (sub : List Validate.Sel) :
+    ∃ key loc ds sub', eSel s env (.field alias name args dirs hs ssid sub)
+      = .field key name loc ds (Exec.argsTable s env name (eArgs args)) hs sub' :=
+  ⟨_, _, _, _, rfl⟩
+
+/-- a rejected argument (C07: `coerceArgumentValues` fails) of a translated field is a FIELD ERROR of the executor model:
+    `null`, one `coercion` error at the field, the resolver world is not consulted -/
+theorem bridge_rejected_argument (s : SchemaD) (env : Exec.ArgEnv) (w : Exec.World) (execSub) (path : Exec.Path)
+    (t : TypeD) (f fd : FieldD) (name : String) (args : List Validate.Arg) (node : Exec.FNode) (more : List Exec.FNode)
+    (ht : t ∈ s.types) (hk : t.kind = .object) (hf : t.fields.find? (·.name == name) = some f)
+    (hnode : node.args = Exec.argsTable s env name (eArgs args))
+    (hfirst : (node.args.find? (·.1 == t.name)) = some (t.name, Exec.argsEntry env (f.args.map Exec.inFieldOfArg) (eArgs args)))
+    (hrej : Exec.argsEntry env (f.args.map Exec.inFieldOfArg) (eArgs args) = none) :
+    Exec.resolveField s w execSub t.name path (node :: more) fd
+      = .ok (.null, [{ path := path, locs := [node.loc], kind := .coercion }]) := by
+  simp [Exec.resolveField, hfirst, hrej]
+
+/-! non-vacuity: a document of the validator's AST with a fragment, an inline fragment, a directive and ARGUMENTS -/
 def brSchema : SchemaD :=
   { types := [{ kind := .scalar, name := "String" }, { kind := .scalar, name := "Int" },
-              { kind := .object, name := "Query", fields := [{ name := "a", type := .named "Int" }, { name := "o", type := .named "Ob" }] },
+              { kind := .object, name := "Query", fields := [{ name := "a", type := .named "Int", args := [{ name := "n", type := .named "Int" }] },
+                                                             { name := "o", type := .named "Ob" }] },
               { kind := .object, name := "Ob", fields := [{ name := "x", type := .list (.named "String") }] }] }
+def brEnv : Exec.ArgEnv := { reg := Exec.regOfSchema brSchema, fuel := 50, vars := [("v", .int 7)] }
 def brDoc : Validate.Doc :=
   { defs := [.op "query" none [] [] 1
-               [.field none "a" [] [⟨"skip", [⟨"if", .bool false⟩]⟩] false 0 [], .spread "F" [],
+               [.field none "a" [⟨"n", .int "3"⟩] [⟨"skip", [⟨"if", .bool false⟩]⟩] false 0 [], .spread "F" [],
                 .inline (some "Query") [] 2 [.field (some "k") "o" [] [] true 3 [.field none "x" [] [] false 0 [], .field none "__typename" [] [] false 0 []]]],
-             .frag "F" "Query" [] 4 [.field none "a" [] [] false 0 []]] }
-example : Spec.ValidDoc brSchema (eDoc brDoc) [] := by unfold Spec.ValidDoc; decide
+             .frag "F" "Query" [] 4 [.field (some "b") "a" [⟨"n", .var "v"⟩] [] false 0 [], .field (some "c") "a" [⟨"n", .str "no"⟩] [] false 0 []]] }
+example : Spec.ValidDoc brSchema (eDoc brSchema brEnv brDoc) [] := by unfold Spec.ValidDoc; decide
+
+/-- the tables: an argument given through a variable is accepted, the literal `"no"` for `Int` is rejected (field error) -/
+example : (Exec.argsTable brSchema brEnv "a" (eArgs [⟨"n", .var "v"⟩])).map (fun e => (e.1, e.2.isSome)) = [("Query", true)] := by decide
+example : Exec.argsTable brSchema brEnv "a" (eArgs [⟨"n", .str "no"⟩]) = [("Query", none)] := by decide
 
 end PyGql.Props.C05
